@@ -15,6 +15,22 @@ CHECKS = {
          "The code-model is compared with the real InMemoryMessageBroker after every call of random well-behaved sessions, and every call kind is cancelled at every event-loop callback index; Lean predicates are evaluated on the implementation's snapshots.",
          "in-memory broker only so far (Redis/RabbitMQ parts: see DESIGN.md); queue_flush/delete excluded.",
          "Lean 4 proof (induction over atom histories) + differential correspondence + cancellation-point enumeration", "§5 C01"),
+ "C05": ("Lean: invariant 'every waiting message that had a due time is past it' preserved by every atom, hence for ALL valid histories a normal poll never hands out a message before its due time (mem_never_early_partial; refutation witness for returns out of a DELAYED hold); update_moves_all_due + poll_progress for 'never forgotten'. "
+         "Tie: snapshot correspondence in random sessions; notEarlyMs/latencyOk evaluated on every delivery of the real broker in sessions and in listening scenarios (due offsets × consumer phases × enqueue orders, virtual time).",
+         "in-memory broker only so far; wall-clock jitter of sleep() is runtime; latency is proved per poll and sampled end-to-end.",
+         "Lean 4 proof (invariant over atom histories) + differential correspondence + virtual-time scenarios", "§5 C05"),
+ "C12": ("Lean: a normal poll never returns an overdue message (mem_no_expired_delivery), an overdue head is dead-lettered and stays retrievable (mem_expired_to_dead, mem_dead_retrievable), nothing but nack or an overdue poll adds to the dead letters (mem_live_not_dropped, all atoms), boundary and TTL-clock theorems. "
+         "Tie: sessions + exhaustive boundary table (ttl × message kind × −1/0/+1 µs) + idle-consumer arrivals on the real broker.",
+         "in-memory broker only so far.",
+         "Lean 4 proof (case analysis over all atoms) + differential correspondence + boundary enumeration", "§5 C12"),
+ "C14": ("Lean: invariant (ids unique, one believer per id, beliefs backed by processing entries) preserved by every atom; for ALL histories of any number of consumers satisfying StepOk at most one consumer believes it holds a message (mem_single_holder_partial, success_once); refutation witness for finish() with a foreign holder. "
+         "Tie: multi-consumer sessions on the real broker with singleHolder evaluated after every call.",
+         "in-memory broker only so far; PARTIAL: finish() while another consumer holds a message is excluded (known finding F3).",
+         "Lean 4 proof (invariant induction) + differential correspondence", "§5 C14"),
+ "C15": ("Lean: per-consumer view lemma (a poll delivers exactly the oldest wanted waiting message, or expires the head, or rotates a foreign head) and 'all other atoms only append to the view' — FIFO for every history with one consumer (mem_fifo, other_atoms_append, mem_return_before_later). "
+         "Tie: single-consumer sessions (backlog 1…35, foreign topics, rejects) on the real broker: inOrder on enqueue vs delivery order.",
+         "in-memory broker only so far.",
+         "Lean 4 proof (view refinement) + differential correspondence", "§5 C15"),
  "C19": ("Lean theorems (all retry numbers, all timestamps/periods, unbounded Int/Nat) about Sched.backoff/nextDefer/computeNext/overdue; "
          "the model functions are compared with the real retry policy, compute_next_execution_time, _prepare_* and the four is_overdue copies under a pinned clock, "
          "and the Lean predicates are evaluated on the implementation's values.",
